@@ -14,7 +14,7 @@
 //   age:       every cache entry is back-dated by this many ns before the call (= that much time passed)
 // Output per op, after a `|`:
 //   <msg len> <byte0|-1> <parse 0 ok|1 decrypt|2 err> <ver 3|4|5|0> <client 0|1> <cookie 0|1> <fallback version>
-//   <in deny> <in allow> <slot|-1> <probe answer len|-1> <act 0 ignore|1 respond> <kind> <nregs> {<ver> <nts> <reason> <resp>}* <answer hex>
+//   <in deny> <in allow> <slot|-1> <probe answer len|-1 ignored|-2 probe panicked> <act 0 ignore|1 respond> <kind> <nregs> {<ver> <nts> <reason> <resp>}* <answer hex>
 //   kind: 0 none, 1 time, 3 DENY kiss, 5 NTS NAK, 6 RATE kiss, 8 other kiss, 9 undecodable / not a server packet
 //   reason: 0 RateLimit 1 ParseError 2 InvalidCrypto 3 InternalError 4 Policy; resp: 0 NTSNak 1 Deny 2 Ignore 3 ProvideTime
 #![allow(dead_code, unused_imports)]
@@ -335,10 +335,13 @@ pub(crate) fn run_scenario(t: &[&str]) -> String {
         let saved = server.client_cache.elements.clone();
         let mut big = std::vec![0u8; 70000];
         let mut dummy = Recorder::default();
-        let probe: i64 = match server.handle(ip, NtpTimestamp::from_fixed_int(100 << 32), &msg, &mut big, &mut dummy) {
-            ServerAction::Ignore => -1,
-            ServerAction::Respond { message } => message.len() as i64,
-        };
+        let probe: i64 = std::panic::catch_unwind(std::panic::AssertUnwindSafe(|| {
+            match server.handle(ip, NtpTimestamp::from_fixed_int(100 << 32), &msg, &mut big, &mut dummy) {
+                ServerAction::Ignore => -1,
+                ServerAction::Respond { message } => message.len() as i64,
+            }
+        }))
+        .unwrap_or(-2);
         server.client_cache.elements = saved;
         // the observed call
         let mut buf = std::vec![0u8; buflen];
